@@ -485,6 +485,9 @@ def conditions():
     # a controller-sent Number Of Completed Packets event naming unknown handles must not cost the live links their credits (C04 harness)
     from vf.props import c04
     borrowed += [c for c in registered(c04.__name__) if c.name.split('@')[0].split('.')[0] == 'host_completion_event']
+    # unsolicited / duplicated Handle Value Confirmations from a hostile peer must leave the server able to indicate (C10 harness)
+    from vf.props import c10
+    borrowed += [c for c in registered(c10.__name__) if c.name.split('@')[0].split('.')[0] == 'confirmations_never_answered']
     return registered(__name__) + _parser_conditions() + borrowed
 
 
